@@ -20,6 +20,9 @@ import (
 	gcmn "github.com/dappledger/AnnChain/gemmill/modules/go-common"
 )
 
+// largest byte slice ReadByteSlice allocates before any of its bytes have been read
+const readByteSliceChunk = 1 << 20
+
 func WriteByteSlice(bz []byte, w io.Writer, n *int, err *error) {
 	WriteVarint(len(bz), w, n, err)
 	WriteTo(bz, w, n, err)
@@ -39,8 +42,19 @@ func ReadByteSlice(r io.Reader, lmt int, n *int, err *error) []byte {
 		return nil
 	}
 
-	buf := make([]byte, length)
-	ReadFull(buf, r, n, err)
+	if length <= readByteSliceChunk {
+		buf := make([]byte, length)
+		ReadFull(buf, r, n, err)
+		return buf
+	}
+	// A length this large is read piecewise, so that memory is only committed for bytes
+	// that actually arrive: with lmt == 0 nothing else bounds what a corrupt prefix asks for.
+	buf := make([]byte, 0, readByteSliceChunk)
+	for len(buf) < length && *err == nil {
+		chunk := make([]byte, gcmn.MinInt(readByteSliceChunk, length-len(buf)))
+		ReadFull(chunk, r, n, err)
+		buf = append(buf, chunk...)
+	}
 	return buf
 }
 
